@@ -181,6 +181,14 @@ pub fn variant() -> String {
 fn case(e: &E, pad: usize, ctx: &Ctx, width: usize, syntax: LuaVersion, sink: &mut Sink, seen_faithful: &mut HashSet<String>, st: &mut [usize; 8]) {
     let src = format!("{}{}{}", ctx.pre, e.lua(pad), ctx.post);
     st[0] += 1;
+    // validate Spec.Prec.faithful: the tree survives print (StyLua's spacing: no space after a
+    // unary minus) → full_moon parse. Asked whether or not the printed text parses.
+    let expected_tree = if ctx.entry == "prefix" { E::Paren(Box::new(e.abstracted())) } else { e.abstracted() };
+    if ctx.name == "local" && !e.has_assert_over_un() && seen_faithful.insert(e.sexp()) {
+        let tight = format!("{}{}{}", ctx.pre, e.lua_(pad, true), ctx.post);
+        let back = parse(&tight, syntax).and_then(|a| extract(&a, ctx.name)).map(|x| sexp::of_ast(&x).abstracted());
+        sink.q(format!("faithful {}", e.abstracted().sexp()), format!("{}", back.as_ref() == Some(&expected_tree)));
+    }
     let ast_in = match parse(&src, syntax) {
         Some(a) => a,
         None => {
@@ -196,15 +204,6 @@ fn case(e: &E, pad: usize, ctx: &Ctx, width: usize, syntax: LuaVersion, sink: &m
         }
     };
     let ein = sexp::of_ast(&ein_ast).abstracted();
-    // the model input for the prefix context is the parenthesised expression itself
-    let expected_tree = if ctx.entry == "prefix" { E::Paren(Box::new(e.abstracted())) } else { e.abstracted() };
-    if ctx.name == "local" && !e.has_assert_over_un() && seen_faithful.insert(e.sexp()) {
-        // validate Spec.Prec.faithful: the tree survives print (StyLua's spacing: no space
-        // after a unary minus) → full_moon parse
-        let tight = format!("{}{}{}", ctx.pre, e.lua_(pad, true), ctx.post);
-        let back = parse(&tight, syntax).and_then(|a| extract(&a, ctx.name)).map(|x| sexp::of_ast(&x).abstracted());
-        sink.q(format!("faithful {}", e.abstracted().sexp()), format!("{}", back.as_ref() == Some(&expected_tree)));
-    }
     let mut c = cfg();
     c.syntax = syntax;
     c.column_width = width;
@@ -285,7 +284,7 @@ pub fn run(tier: &str, seed: u64) -> Sink {
     let unops: Vec<&'static str> = vec!["m", "n"];
     let mut trees = gen(2, &ops, &unops, &leaves, false);
     // Luau: type assertions at depth 2 over a smaller alphabet
-    let luau_trees = gen(2, &["plus", "caret"], &["m"], &[E::Atom(0), E::Call(0)], true);
+    let luau_trees = gen(2, &["plus", "caret", "lt"], &["m"], &[E::Atom(0), E::Call(0)], true);
     let nluau = luau_trees.len();
     let mut rng = Rng::new(seed ^ 0xC05);
     let nrand = if thorough { 60000 } else { 6000 };
